@@ -303,6 +303,21 @@ class Gen:
             n = rng.randint(1, 3)
             es = [self.echo_atom(sc) for _ in range(n)]
             return [C("SEcho", [t for t, _ in es])], ["echo " + " ".join(s for _, s in es)]
+        if r < 0.52 and self.loop_depth == 0 and not self.in_func:
+            # pop as an expression, inside a block, on an array declared outside it: the value goes into a variable of the
+            # block, the array itself is one shorter afterwards.  The array is a fresh literal, so its length is known: the
+            # reference reads the last element and then pops.
+            v = self.fresh("stk")
+            n = rng.randint(1, 3)
+            items = [(C("EInt", zc(k_)), str(k_)) for k_ in (rng.randint(0, 9) for _ in range(n))]
+            w = self.fresh("top")
+            self.features.add("pop-expression")
+            sc.vars[v] = ("arr", 0, "num")          # (whether the block ran is not known here: no indexing afterwards)
+            ct, cs = self.cmp_expr(sc)
+            return ([C("SLet", v, C("EArr", [t for t, _ in items])),
+                     C("SIf", [(ct, [C("SLet", w, C("EIdx", v, C("EInt", zc(n - 1)))), C("SPop", v), C("SEcho", [C("EVar", w), C("EVar", v)])])], None),
+                     C("SEcho", [C("EVar", v)])],
+                    [f"let {v} = [" + ", ".join(s_ for _, s_ in items) + "]", f"if {cs} {{", f"  let {w} = pop ${v}", f"  echo ${w} ${v}", "}", f"echo ${v}"])
         if r < 0.55 and arrs:
             v = rng.choice(arrs)
             _, n, _ = sc.lookup(v)
@@ -315,14 +330,6 @@ class Gen:
             if n > 0 and k < 0.7:
                 self.set_type(sc, v, ("arr", n - 1, "num"))
                 self.features.add("pop")
-                if rng.random() < 0.5 and self.loop_depth == 0:
-                    # the expression form: the value that is taken off goes into a variable, the array (wherever it was
-                    # declared) is one shorter.  In the reference: read the last element, then pop.
-                    w = self.fresh("top")
-                    sc.vars[w] = "num"
-                    self.features.add("pop-expression")
-                    return ([C("SLet", w, C("EIdx", v, C("EInt", zc(n - 1)))), C("SPop", v), C("SEcho", [C("EVar", w), C("EVar", v)])],
-                            [f"let {w} = pop ${v}", f"echo ${w} ${v}"])
                 return [C("SPop", v)], [f"pop ${v}"]
             if n > 0:
                 i = rng.randint(0, n - 1)
